@@ -295,6 +295,28 @@ def check_sim(initkey_or_spec, history, ts_max=0.5, seed=0):
     return out, nsamples
 
 
+_SIMS = [0]
+
+
+def _release_compiled_code():
+    """Every generate_graphs call compiles fresh XLA programs (closures over the nodes), and jax keeps them: about 200
+    memory mappings per call, so a worker that simulates a few hundred configurations runs into vm.max_map_count
+    ('LLVM ERROR: Unable to allocate section memory'). Drop jax's caches whenever the process holds many mappings."""
+    import gc
+
+    _SIMS[0] += 1
+    try:
+        with open("/proc/self/maps") as fh:
+            many = sum(1 for _ in fh) > 12000
+    except OSError:
+        many = _SIMS[0] % 20 == 0
+    if many:
+        import jax
+
+        jax.clear_caches()
+        gc.collect()
+
+
 def sim_task(cases):
     f = Findings()
     cnt = dict(cases=0, traces=0, samples=0)
@@ -302,6 +324,7 @@ def sim_task(cases):
         cnt["cases"] += 1
         cnt["traces"] += 1
         found, ns = check_sim(c["init"], c["history"], c["ts_max"], c["seed"])
+        _release_compiled_code()
         cnt["samples"] += ns
         for sig, detail in found:
             rp = dict(kind="sim", init=c["init"], history=c["history"], ts_max=c["ts_max"], seed=c["seed"])
